@@ -1,67 +1,50 @@
 """Regions of the known findings of C18 (see KNOWN_FINDINGS.txt).  classify(name, case, msg) -> finding id | None.
 
 `case` is the failing case as c18.py records it: op, fam, arrays, args, kwargs, kind, formats (one tag per array:
-"coo", "gcxs[0]", "dok", "dense"), shapes, outcome (class of the observed outcome), etype, np (NumPy's verdict), origin.
+"coo", "gcxs[0]", "dok", "dense"), shapes, outcome (class of the observed outcome), etype, np (NumPy's verdict), np_msg (NumPy's
+message, or the reason the written-out contract gives), origin.
 `msg` is the oracle's description ("hang: ...", "crash: ...", "accepted: ...", "rejected with ...", "internal: ...",
 "unusable: ...").  Every region fixes the operation, the shape/format/argument pattern AND the observed outcome: the same
 input failing in another way is not the finding.
+
+Open:
+F-c18-str-no-columns-assertion        str() of a 2-d array with no columns: AssertionError out of matrepr
+F-c18-dok-partial-index-lists         DOK index lists / masks for fewer than all dimensions: NotImplementedError where NumPy raises IndexError
+F-c18-einsum-operand-rank-unchecked   einsum accepts an operand with more dimensions than its subscripts
+F-c18-gcxs-ctor-contents-unchecked    the residual of F-c18-gcxs-ctor-unvalidated: lengths and the ends of indptr are checked (5753560), the
+                                      CONTENTS are not: column indices outside the shape, decreasing index pointers.  Region: the contract's
+                                      reason is exactly one of these two (so lengths, indptr length and its two ends are consistent) and the call returned.
+
+Retired (repaired in /repo; each witness is a must-pass case of c18.retired_witnesses, and the generators still produce the region):
+F-c18-reshape-several-unknown, F-c18-reshape-unknown-with-zero (999f0e4), F-c18-coo-ctor-0d-unchecked (22a856d), F-c18-gcxs-ctor-unvalidated
+(5753560), F-c18-gcxs-lowrank-nbytes (f8a1188), F-c18-coo-only-function-gcxs (9d10515), F-c18-diagonal-equal-axes (b6c8f54),
+F-c18-flip-repeated-axis (e21e508), F-c18-squeeze-repeated-axis (eaaac81), F-c18-moveaxis-repeated-axis (55412b6),
+F-c18-sort-1d-axis-ignored (e2d0b75), F-c18-tensordot-empty-duplicate-axes (5b38ef4), F-c18-slice-step-zero-zerodivision (e1153be).
 """
 from __future__ import annotations
 
-COO_ONLY = {"sparse.tril", "sparse.triu", "sparse.diagonal", "sparse.nonzero", "sparse.argwhere", "sparse.broadcast_to"}
+GCXS_CONTENT_REASONS = ("indices out of range", "indptr decreasing")
 
 
 def classify(name, case, msg):
     fmts = case.get("formats") or []
     shapes = case.get("shapes") or []
-    arrays = case.get("arrays") or []
-    args = case.get("args") or []
-    kw = case.get("kwargs") or {}
     kind = case.get("kind")
     et = case.get("etype")
-    out = case.get("outcome")
 
     # ---- internal errors on valid arguments ------------------------------------------------------------------------
-    if name == "x.props" and fmts and fmts[0].startswith("gcxs") and len(shapes[0]) < 2 and et == "AttributeError" and "'nbytes'" in msg:
-        return "F-c18-gcxs-lowrank-nbytes"
-    if (name in COO_ONLY and fmts and fmts[0].startswith("gcxs") and et == "AttributeError" and "'GCXS' object has no attribute" in msg):
-        return "F-c18-coo-only-function-gcxs"
     if name == "x.props" and et == "AssertionError" and "multiline_concat" in str(case.get("origin")) and shapes and len(shapes[0]) == 2 and shapes[0][1] == 0:
         return "F-c18-str-no-columns-assertion"
 
     # ---- rejection with the wrong class ----------------------------------------------------------------------------
-    if (name in ("x.reshape", "sparse.reshape") and et == "OverflowError" and "float infinity" in msg and len(args) > 1
-            and isinstance(args[1], list) and -1 in args[1] and 0 in args[1]):
-        return "F-c18-reshape-unknown-with-zero"
-    if (name in ("x[idx]", "dok[idx]=v") and fmts and fmts[0] in ("coo", "dok") and kind == "index-step0" and et == "ZeroDivisionError"
-            and "modulo by zero" in msg):
-        return "F-c18-slice-step-zero-zerodivision"
     if (name in ("x[idx]", "dok[idx]=v") and fmts and fmts[0] == "dok" and et == "NotImplementedError" and "Index sequences for all" in msg
             and kind in ("index-oob", "index-masklen") and case.get("np") == "err"):
         return "F-c18-dok-partial-index-lists"
 
     # ---- accepted what NumPy / the contract rejects ----------------------------------------------------------------
     if msg.startswith("accepted:"):
-        if name in ("x.reshape", "sparse.reshape") and len(args) > 1 and isinstance(args[1], list) and args[1].count(-1) >= 2:
-            return "F-c18-reshape-several-unknown"
-        if name == "COO(coords,data,shape)" and kw.get("shape") == [] and kind == "ctor-bad":
-            return "F-c18-coo-ctor-0d-unchecked"
-        if name == "GCXS(triple,shape,ca)" and kind == "ctor-bad":
-            return "F-c18-gcxs-ctor-unvalidated"
-        if name == "sparse.diagonal" and kind == "axis-repeated" and fmts == ["coo"]:
-            return "F-c18-diagonal-equal-axes"
-        if name == "sparse.flip" and kind == "axis-repeated":
-            return "F-c18-flip-repeated-axis"
-        if name in ("sparse.squeeze", "x.squeeze") and kind == "axis-repeated":
-            return "F-c18-squeeze-repeated-axis"
-        if name == "sparse.moveaxis" and kind == "axis-repeated" and "repeated axis" in msg:
-            return "F-c18-moveaxis-repeated-axis"
-        if name == "sparse.sort" and kind == "axis-oor" and shapes and len(shapes[0]) == 1:
-            return "F-c18-sort-1d-axis-ignored"
+        if name == "GCXS(triple,shape,ca)" and kind == "ctor-bad" and case.get("np_msg") in GCXS_CONTENT_REASONS:
+            return "F-c18-gcxs-ctor-contents-unchecked"
         if name == "sparse.einsum" and "operand has more dimensions than subscripts" in msg:
             return "F-c18-einsum-operand-rank-unchecked"
-        if name == "sparse.tensordot" and "duplicate axes" in msg and any(0 in s for s in shapes):
-            return "F-c18-tensordot-empty-duplicate-axes"
-    if name == "COO(coords,data,shape)" and kw.get("shape") == [] and "idx_dtype" in kw and "max() iterable argument is empty" in msg:
-        return "F-c18-coo-ctor-0d-unchecked"
     return None
